@@ -234,10 +234,9 @@ theorem mkTrackers_ok {v : TrackersVal} {T : Tiers}
   | list vs => simp only [mkTrackers] at hr; exact tiersAddAll_ok TiersOK_nil hr
   | other => simp only [mkTrackers] at hr; cases hr
 
-theorem tiersSetItem_ok {T : Tiers} {i : Int} {v : TierVal}
-    {w : Written} {out : Outcome} (hT : TiersOK isUrl T)
-    (hr : tiersSetItem isUrl T i v = (some w, out)) : ∃ T', TiersOK isUrl T' ∧ w = wOf T' := by
-  unfold tiersSetItem at hr
+theorem tiersSetItemT_ok {T T' : Tiers} {i : Int} {v : TierVal}
+    (hT : TiersOK isUrl T) (hr : tiersSetItemT isUrl T i v = .ok T') : TiersOK isUrl T' := by
+  unfold tiersSetItemT at hr
   split at hr
   · cases hr
   · rename_i tier hm
@@ -248,10 +247,77 @@ theorem tiersSetItem_ok {T : Tiers} {i : Int} {v : TierVal}
       · cases hr
       · rename_i k hk
         cases hr
-        refine ⟨_, TiersOK_splice hT (Nat.le_succ k) hc.1 ?_, rfl⟩
+        refine TiersOK_splice hT (Nat.le_succ k) hc.1 ?_
         exact UOK_known_subset hu
           (fun u hu' => (flatten_sublist (splice_nil_sublist T (Nat.le_succ k))).subset hu')
-    · cases hr; exact ⟨T, hT, rfl⟩
+    · cases hr; exact hT
+
+theorem tiersSetItem_ok {T : Tiers} {i : Int} {v : TierVal}
+    {w : Written} {out : Outcome} (hT : TiersOK isUrl T)
+    (hr : tiersSetItem isUrl T i v = (some w, out)) : ∃ T', TiersOK isUrl T' ∧ w = wOf T' := by
+  unfold tiersSetItem at hr
+  split at hr
+  · cases hr
+  · rename_i T' h1; cases hr; exact ⟨T', tiersSetItemT_ok hT h1, rfl⟩
+
+/-- whatever `Trackers.reverse()` does, every object it hands to the callback has good tiers -/
+theorem tiersReverseLoop_ok {n : Nat} {is : List Nat} {T : Tiers} {last last' : Option Tiers}
+    {out : Outcome} (hT : TiersOK isUrl T) (hl : ∀ l, last = some l → TiersOK isUrl l)
+    (hr : tiersReverseLoop isUrl n is T last = (last', out)) :
+    ∀ l, last' = some l → TiersOK isUrl l := by
+  induction is generalizing T last with
+  | nil => unfold tiersReverseLoop at hr; cases hr; exact hl
+  | cons i is ih =>
+    unfold tiersReverseLoop at hr
+    split at hr
+    · rename_i x y hx hy
+      split at hr
+      · cases hr; exact hl
+      · rename_i T1 h1
+        have hT1 := tiersSetItemT_ok hT h1
+        split at hr
+        · cases hr; intro l hl'; cases hl'; exact hT1
+        · rename_i T2 h2
+          have hT2 := tiersSetItemT_ok hT1 h2
+          exact ih hT2 (fun l hl' => by cases hl'; exact hT2) hr
+    · cases hr; exact hl
+
+/-- assigning a tier value whose URLs are all stored already (in any tier) assigns nothing:
+    every URL is filtered as known, the new tier is empty, `len(tier) > 0` fails -/
+theorem addAll_all_known {known items cs : List String}
+    (hg : ∀ c ∈ cs, Good isUrl c ∧ c ∈ known) : addAll isUrl known items cs = .ok items := by
+  induction cs with
+  | nil => simp [addAll]
+  | cons c cs ih =>
+    have h1 := hg c (by simp)
+    unfold addAll
+    simp only [filterIns, coerce_of_good h1.1, h1.2, or_true, if_true]
+    exact ih (fun x hx => hg x (by simp [hx]))
+
+theorem tiersSetItemT_stored {T : Tiers} {i : Int} {x : Tier} (hT : TiersOK isUrl T) (hx : x ∈ T) :
+    tiersSetItemT isUrl T i (.list x) = .ok T := by
+  have hg : ∀ c ∈ x, Good isUrl c ∧ c ∈ T.flatten := fun c hc =>
+    ⟨hT.2.2 c (List.mem_flatten.2 ⟨x, hx, hc⟩), List.mem_flatten.2 ⟨x, hx, hc⟩⟩
+  simp [tiersSetItemT, mkURLs, urlsReplace, coerceAll_id (fun c hc => (hg c hc).1),
+    addAll_all_known hg]
+
+/-- `Trackers.reverse()` changes NOTHING on good tiers: each half of each swap assigns a tier whose
+    URLs are all stored already; it runs the callback with the unchanged object (unless there are
+    fewer than two tiers) and never raises -/
+theorem tiersReverseLoop_noop {n : Nat} {is : List Nat} {T : Tiers} {last : Option Tiers}
+    (hT : TiersOK isUrl T) (hn : n = T.length) (hi : ∀ i ∈ is, i < n) :
+    tiersReverseLoop isUrl n is T last = (if is = [] then last else some T, .ok) := by
+  induction is generalizing last with
+  | nil => simp [tiersReverseLoop]
+  | cons i is ih =>
+    have hlt : i < T.length := hn ▸ hi i (by simp)
+    have h1 : n - i - 1 < T.length := by omega
+    unfold tiersReverseLoop
+    rw [List.getElem?_eq_getElem h1, List.getElem?_eq_getElem hlt]
+    simp only [tiersSetItemT_stored hT (List.getElem_mem h1), tiersSetItemT_stored hT (List.getElem_mem hlt)]
+    rw [ih (fun j hj => hi j (by simp [hj]))]
+    simp only [reduceCtorEq, if_false]
+    split <;> rfl
 
 /-- every operation on a tier (index and slice assignment included; an assignment that empties the
     tier removes it) hands good tiers to the callback -/
@@ -372,6 +438,17 @@ theorem tiersOp_ok {T : Tiers} {op : TOp} {w : Written}
       · cases hr
       · rename_i T' h2; cases hr; exact ⟨T', tiersAddAll_ok TiersOK_nil h2, rfl⟩
   | setItem i v => simp only [tiersOp] at hr; exact tiersSetItem_ok hT hr
+  | reverse =>
+    simp only [tiersOp] at hr
+    rcases he : tiersReverseLoop isUrl T.length (List.range (T.length / 2)) T none with ⟨last, out'⟩
+    rw [he] at hr
+    have := tiersReverseLoop_ok hT (fun l hl => by cases hl) he
+    cases hl : last with
+    | none => rw [hl] at hr; simp at hr
+    | some l =>
+      rw [hl] at hr
+      simp only [Option.map_some, Prod.mk.injEq, Option.some.injEq] at hr
+      exact ⟨l, this l hl, hr.1.symm⟩
   | setSlice a b vs => simp [TOp.clean] at hop
   | tier ti op =>
     simp only [tiersOp] at hr
